@@ -45,7 +45,11 @@ Frag(cc) ==
        (* one structured and one scalar extension value (a map-like container that mistook x- keys for    *)
        (* entries would still round-trip an object-valued one)                                            *)
        withX == IF cc.ext \in {"x", "xu"} THEN SetKey(SetKey(withF, "x-ext", AnyV), "x-n", Nm("1")) ELSE withF
-   IN IF cc.ext \in {"unk", "xu"} THEN SetKey(withX, "unknownField", O1("u", Nm("1"))) ELSE withX
+       (* ... and, on a schema, unknown keys that are keywords of LATER drafts (const, if, $comment, examples): still unknown here *)
+       withU == IF cc.ext \in {"unk", "xu"} THEN SetKey(withX, "unknownField", O1("u", Nm("1"))) ELSE withX
+   IN IF cc.ext \in {"unk", "xu"} /\ cc.kind = "Schema"
+      THEN SetKey(SetKey(SetKey(SetKey(withU, "const", Sv("c")), "if", O1("type", Sv("string"))), "$comment", Sv("note")), "examples", Av(<<Nm("1")>>))
+      ELSE withU
 
 (* ---- special documents ---- *)
 TrickyPlain == <<"true", "null", "123", "1e3", "0x1F", "~", "yes", "on", "2001-01-01", "2001-01-01T00:00:00Z",
